@@ -53,8 +53,11 @@ the adapter lookups (probed: classifier, view types, request interface, context 
 distinguished by the cache key (probed: a second lookup differing only in it is not answered from the first one's
 entry).  This is what makes `Cfg.KeyFaithful` — the hypothesis of every theorem below — true of the source.  (Until
 commit fc67717 the key was `(request_iface, context_iface, view_name)` and this obligation was false: fixed finding
-F-C15a, see `key_collision_witness`.) -/
-theorem source_key_covers_scan : Gen.C15.keyCoversScan = true := by decide
+F-C15a, see `key_collision_witness`.)  Second conjunct (probed): the key is made of the RESOLUTION ORDERS of the two
+specifications, not of the specification objects, which zope.interface updates in place — an entry cached before
+what a class/object provides changed does not answer afterwards (until commit c18a9ea it did: fixed finding F-C15c,
+see `interface_change_witness`). -/
+theorem source_key_covers_scan : Gen.C15.keyCoversScan = true ∧ Gen.C15.keyTracksSRO = true := by decide
 
 /-- GENERATED OBLIGATION.  `register_view` turns a single view into a multiview by registering the multiview under
 `IMultiView` BEFORE it unregisters `IView` / `ISecuredView` (commit 7ef5d71; the old order is finding F-C15b,
@@ -78,34 +81,46 @@ theorem source_multiview_stateless : Gen.C15.multiviewStateless = true := by dec
 
 REMARK.  `Cfg.slots q` — the scan order of a query — is what the request's and the context's interfaces give AT THE
 MOMENT of the lookup; the model has no other access to interfaces, so *the view found depends on the registrations in
-force and the interfaces provided at that moment only* is built in (`scan s.regs (cfg.slots q)`), and the generated
-obligation `scanReadsCurrentSRO` (in `source_protocol`) says the implementation computes its scan order from the current
-resolution orders, not from a memo (seeded change C15-7).  When an application changes what a context class or
-instance provides between two requests (`classImplements`, `classImplementsOnly`, `alsoProvides`, `noLongerProvides`,
-`directlyProvides`) the SAME specification object gets another resolution order: in the model the later lookup is
-ANOTHER query `q'` with `cfg.ck q' = cfg.ck q` and `cfg.slots q' ≠ cfg.slots q`.  Then
-* if nothing is cached under the key — the earlier lookup was a miss (`misses_never_cached`) or a registration has
-  swapped the dict since — the later lookup scans and returns `scan regs (cfg.slots q')`: see
-  `interface_change_witness` (first two clauses) and, under `KeyFaithful` for the remaining keys, `warm_eq_cold`;
-* if the earlier lookup was a hit and nothing cleared the cache, `KeyFaithful` fails for this pair and the later
-  lookup is answered with the list of `q` (third clause): the application changed the meaning of a cache key without
-  any registration.  This input class is outside the theorems' hypothesis; the harness counts such warm hits
-  (`EXCLUDED_warm_hit_after_interface_change`) and does not judge them — see notes/C15.md. -/
+force and the interfaces provided at that moment only* is built in (`scan s.regs (cfg.slots q)`).  When an application
+changes what a context class or instance provides between two requests (`classImplements`, `classImplementsOnly`,
+`alsoProvides`, `noLongerProvides`, `directlyProvides`) the same `_find_views` arguments get another resolution order:
+in the model the later lookup is ANOTHER query `q'` with `cfg.slots q' ≠ cfg.slots q`.  Since commit c18a9ea the cache
+key consists of the two resolution orders (plus name, classifier, view types), i.e. of everything `cfg.slots` is
+computed from, so `q'` has ANOTHER key and `Cfg.KeyFaithful` holds by construction for interface changes
+(`source_key_covers_scan`, second conjunct; `scanReadsCurrentSRO` in `source_protocol` for the scan itself): every
+theorem above applies to `q'` — warm or cold it returns `scan regs (cfg.slots q')` (`warm_eq_cold`,
+`no_stale_entry_at_rest`).  Before c18a9ea the key was the pair of specification OBJECTS, `q` and `q'` shared it, and a
+warm entry of `q` answered `q'` (finding F-C15c, fixed; second half of the witness below). -/
 
-/-- queries 0 and 1: the same `_find_views` arguments before / after `classImplements(Ctx, IFoo)` — same cache key,
-the later scan order has the `IFoo` slot 7 in front.  After a MISS of query 0 (slot 7 registered only) query 1 returns
-its own scan `[70]`; after a clearing registration too; after a HIT of query 0 (slot 3 registered as well) and no
-clear it is answered `[30]` from the cache although its own scan is `[70, 30]`. -/
+/-- REGRESSION THEOREM for F-C15c.  Queries 0 and 1: the same `_find_views` arguments before / after
+`classImplements(Ctx, IFoo)`; the later scan order has the `IFoo` slot 7 in front.  With the key as it is NOW (the
+resolution orders: `ck q = q`, `KeyFaithful`) query 1 returns its current scan `[70, 30]` also when query 0 was a warm
+hit just before, and after a miss `[70]`.  With the key as it WAS (the specification objects: `ck _ = 0`) the warm case
+was answered `[30]` from query 0's entry although the current scan is `[70, 30]`; after a miss or a clearing
+registration it was right. -/
 theorem interface_change_witness :
-    let cfg : Cfg := { ck := fun _ => 0, slots := fun q => if q = 0 then [3] else [7, 3] }
+    let slots : Query → List Slot := fun q => if q = 0 then [3] else [7, 3]
+    let now : Cfg := { ck := fun q => q, slots := slots }
+    let was : Cfg := { ck := fun _ => 0, slots := slots }
     let miss : Regs := fun s => if s = 7 then some 70 else none
     let hit : Regs := fun s => if s = 7 then some 70 else if s = 3 then some 30 else none
-    (let s := run Proto.good cfg (init miss) ([.spawn 0] ++ List.replicate 9 (.thread 0) ++ [.spawn 1] ++ List.replicate 9 (.thread 1))
+    let two := [Lbl.spawn 0] ++ List.replicate 9 (.thread 0) ++ [.spawn 1] ++ List.replicate 9 (.thread 1)
+    now.KeyFaithful ∧
+    (let s := run Proto.good now (init hit) two
+     result? s 0 = some [30] ∧ result? s 1 = some [70, 30] ∧ scan s.regs (now.slots 1) = [70, 30]) ∧
+    (let s := run Proto.good now (init miss) two
      result? s 0 = some [] ∧ result? s 1 = some [70]) ∧
-    (let s := run Proto.good cfg (init hit) ([.spawn 0] ++ List.replicate 9 (.thread 0) ++ atomicReg [] ++ [.spawn 1] ++ List.replicate 9 (.thread 1))
-     result? s 0 = some [30] ∧ result? s 1 = some [70, 30]) ∧
-    (let s := run Proto.good cfg (init hit) ([.spawn 0] ++ List.replicate 9 (.thread 0) ++ [.spawn 1] ++ List.replicate 9 (.thread 1))
-     result? s 0 = some [30] ∧ result? s 1 = some [30] ∧ scan s.regs (cfg.slots 1) = [70, 30]) := by decide
+    (let s := run Proto.good was (init hit) two
+     result? s 0 = some [30] ∧ result? s 1 = some [30] ∧ scan s.regs (was.slots 1) = [70, 30]) ∧
+    (let s := run Proto.good was (init miss) two
+     result? s 1 = some [70]) ∧
+    (let s := run Proto.good was (init hit)
+       ([.spawn 0] ++ List.replicate 9 (.thread 0) ++ atomicReg [] ++ [.spawn 1] ++ List.replicate 9 (.thread 1))
+     result? s 1 = some [70, 30]) := by
+  refine ⟨?_, by decide, by decide, by decide, by decide, by decide⟩
+  intro q q' h
+  simp only at h
+  rw [h]
 
 /-- the adapter mutations of a multiview conversion in the order the translator finds them in the source -/
 def sourceConversionMods (sM sV sS : Slot) (mv : View) : Mods :=
